@@ -34,7 +34,7 @@ def judge(module: str, cases: list, scratch: str, *, chunks: int = 16, cfg: str 
         os.unlink(path)
         vals = tlc.printed_values(r.out, tag)
         if len(vals) != 1:
-            raise RuntimeError(f"TLC batch {module} chunk {idx} failed:\n{r.out[-3000:]}")
+            raise RuntimeError(f"TLC batch {module} chunk {idx} failed:\n{r.out[-1200:]}")
         v = vals[0]
         if isinstance(v, dict):  # function printed as (1 :> a @@ ...)
             v = tuple(v[k] for k in sorted(v))
